@@ -732,36 +732,6 @@ theorem sgFields_nil_sel (tbl : SgTable) (recur : Val → Dict → Out Val) (cls
     subst h0
     simp [sgFields, dget, ih (fun g hg => hi g (by simp [hg]))]
 
-theorem sgFields_single (tbl : SgTable) (recur : Val → Dict → Out Val) (cls : Str) (fs : List Fld)
-    (k key : Str) (alts : Dict) (alt : Val) (f : Fld)
-    (hi : ∀ f ∈ fs, f.init = true) (hf : getFld fs k = some f)
-    (hdc : (sgMeta tbl cls k).hasDc = true) (hsg : (sgMeta tbl cls k).sg = some alts)
-    (halt : dget alts key = some alt) :
-    ∃ fs', sgFields tbl recur cls fs [(k, .str key)] = .ok fs' ∧ setField fs k alt = some fs' := by
-  induction fs with
-  | nil => simp [getFld] at hf
-  | cons f0 rest ih =>
-    obtain ⟨n0, i, v0, d0⟩ := f0
-    have h0 : i = true := hi (.mk n0 i v0 d0) (by simp)
-    subst h0
-    have hrest : ∀ g ∈ rest, g.init = true := fun g hg => hi g (by simp [hg])
-    simp only [getFld] at hf
-    by_cases hnk : n0 = k
-    · subst hnk
-      have hne : alts ≠ [] := by intro e; subst e; simp [dget] at halt
-      obtain ⟨a, as, rfl⟩ := List.exists_cons_of_ne_nil hne
-      refine ⟨.mk n0 true alt d0 :: rest, ?_, by simp [setField]⟩
-      have hsel : dget [(n0, Val.str key)] n0 = some (.str key) := by simp [dget]
-      have hdel : ddel [(n0, Val.str key)] n0 = [] := by simp [ddel]
-      rw [sgFields]
-      have hss : selSplit (Val.str key) = (Val.str key, []) := rfl
-      simp only [hsel, hdc, hss, pickMember, hsg, halt, hdel, sgFields_nil_sel tbl recur cls rest hrest]
-      simp
-    · simp only [hnk, if_false] at hf
-      obtain ⟨fs', h1, h2⟩ := ih hrest hf
-      have hkn : k ≠ n0 := fun e => hnk e.symm
-      exact ⟨.mk n0 true v0 d0 :: fs', by simp [sgFields, dget, hkn, h1], by simp [setField, hnk, h2]⟩
-
 theorem rebuild_allInit (fs : List Fld) (hi : ∀ f ∈ fs, f.init = true) : rebuild fs = fs :=
   rebuild_atDefault fs (fun f hf h => by rw [hi f hf] at h; cases h)
 
@@ -790,21 +760,57 @@ theorem setField_allInit (fs : List Fld) (k : Str) (x : Val) (fs' : List Fld) (h
       · rfl
       · exact ih r (fun g hg => hi g (by simp [hg])) hr f hf
 
-/-- **replace_subgroups swaps exactly the selected member** (one-level selection by subgroup key): the result is
-    `dataclasses.replace(obj, k=<the alternative registered under key>)` — nothing else changes. -/
-theorem c18_subgroups_select (tbl : SgTable) (fuel : Nat) (cls : Str) (fs : List Fld)
-    (k key : Str) (alts : Dict) (alt : Val) (f : Fld) (hk : '.' ∉ k)
-    (hi : ∀ f ∈ fs, f.init = true) (hf : getFld fs k = some f)
-    (hdc : (sgMeta tbl cls k).hasDc = true) (hsg : (sgMeta tbl cls k).sg = some alts)
-    (halt : dget alts key = some alt) :
-    ∃ r, replaceSg tbl (fuel + 1) (.inst cls fs) [(k, .str key)] = .ok r ∧
-         refEdit (.inst cls fs) [k] alt = some r := by
-  obtain ⟨fs', h1, h2⟩ := sgFields_single tbl (replaceSg tbl fuel) cls fs k key alts alt f hi hf hdc hsg halt
-  refine ⟨.inst cls fs', ?_, ?_⟩
-  · simp only [replaceSg, unflattenSel_single k _ hk, h1]
-    rw [rebuild_allInit fs' (setField_allInit fs k alt fs' hi h2)]
-  · simp only [refEdit, h2, Option.map_some]
-    rw [rebuild_allInit fs' (setField_allInit fs k alt fs' hi h2)]
+/-! `selLeft`: the selection keys that name no field (replace.py:193, repair bba27c4) -/
+
+theorem selLeft_nil (fs : List Fld) : selLeft fs [] = [] := by
+  induction fs with
+  | nil => rfl
+  | cons f rest ih => obtain ⟨n, i, v, d⟩ := f; simp [selLeft, ddel, ih]
+
+theorem selLeft_single (fs : List Fld) (k : Str) (s : Val) (f : Fld) (hf : getFld fs k = some f) :
+    selLeft fs [(k, s)] = [] := by
+  induction fs with
+  | nil => simp [getFld] at hf
+  | cons f0 rest ih =>
+    obtain ⟨n0, i, v0, d0⟩ := f0
+    simp only [getFld] at hf
+    by_cases hnk : n0 = k
+    · subst hnk; simp [selLeft, ddel, selLeft_nil]
+    · simp only [hnk, if_false] at hf
+      have hkn : k ≠ n0 := fun e => hnk e.symm
+      simp [selLeft, ddel, hkn, ih hf]
+
+theorem selLeft_keeps_unknown (fs : List Fld) : ∀ (sel : Dict) (k : Str), getFld fs k = Option.none →
+    dget (selLeft fs sel) k = dget sel k := by
+  induction fs with
+  | nil => intro sel k _; rfl
+  | cons f0 rest ih =>
+    obtain ⟨n0, i, v0, d0⟩ := f0
+    intro sel k hk
+    simp only [getFld] at hk
+    by_cases hnk : n0 = k
+    · simp [hnk] at hk
+    · simp only [hnk, if_false] at hk
+      simp only [selLeft]
+      rw [ih _ k hk, dget_ddel_ne sel k n0 hnk]
+
+theorem selLeft_single_isEmpty (fs : List Fld) (a : Str) (s1 s2 : Val) :
+    (selLeft fs [(a, s1)]).isEmpty = (selLeft fs [(a, s2)]).isEmpty := by
+  induction fs with
+  | nil => rfl
+  | cons f0 rest ih =>
+    obtain ⟨n0, i, v0, d0⟩ := f0
+    by_cases han : a = n0
+    · subst han; simp [selLeft, ddel, selLeft_nil]
+    · simp [selLeft, ddel, han, ih]
+
+theorem pickMember_noChild (m : SgMeta) (cur vos : Val) : pickMember m cur vos false = pickOther m cur vos := by
+  simp [pickMember, descends]
+
+/-- repair 452ee05: with child selections and no own value, the current instance is kept — for EVERY kind of field -/
+theorem pickMember_descend (m : SgMeta) (c : Str) (fs : List Fld) :
+    pickMember m (.inst c fs) .none true = .ok (.inst c fs) := by
+  simp [pickMember, descends]
 
 /-- an empty selection returns `obj` itself -/
 theorem c18_subgroups_empty (tbl : SgTable) (fuel : Nat) (obj : Val) : replaceSg tbl fuel obj [] = .ok obj := by
@@ -833,7 +839,7 @@ theorem sgFields_cons_inv (tbl : SgTable) (recur : Val → Dict → Out Val) (cl
     i = true ∧ ∃ nv r sel', sgFields tbl recur cls rest sel' = .ok r ∧ fs' = .mk n true nv d :: r ∧
       ((sel' = sel ∧ dget sel n = Option.none ∧ nv = v) ∨
        (sel' = ddel sel n ∧ ∃ s, dget sel n = some s ∧ (sgMeta tbl cls n).hasDc = true ∧
-          ∃ fv, pickMember (sgMeta tbl cls n) v (selSplit s).1 = .ok fv ∧
+          ∃ fv, pickMember (sgMeta tbl cls n) v (selSplit s).1 (!(selSplit s).2.isEmpty) = .ok fv ∧
             ((selSplit s).2.isEmpty = true ∧ nv = fv ∨ (selSplit s).2.isEmpty = false ∧ recur fv (selSplit s).2 = .ok nv))) := by
   rw [sgFields] at h
   cases i with
@@ -859,7 +865,7 @@ theorem sgFields_cons_inv (tbl : SgTable) (recur : Val → Dict → Out Val) (cl
       | true =>
         rw [hdc] at h
         simp only [Bool.not_true, Bool.false_eq_true, if_false] at h
-        cases hp : pickMember (sgMeta tbl cls n) v (selSplit s).1 with
+        cases hp : pickMember (sgMeta tbl cls n) v (selSplit s).1 (!(selSplit s).2.isEmpty) with
         | error e => rw [hp] at h; simp at h
         | ok fv =>
           rw [hp] at h
@@ -925,7 +931,7 @@ theorem sgFields_spec (tbl : SgTable) (recur : Val → Dict → Out Val) (cls : 
     ∀ (sel : Dict) (fs' : List Fld) (k : Str) (f : Fld) (s : Val), sgFields tbl recur cls fs sel = .ok fs' →
       getFld fs k = some f → dget sel k = some s →
       ∃ nv fv, getFld fs' k = some (.mk f.name true nv f.dflt) ∧
-        pickMember (sgMeta tbl cls k) f.val (selSplit s).1 = .ok fv ∧
+        pickMember (sgMeta tbl cls k) f.val (selSplit s).1 (!(selSplit s).2.isEmpty) = .ok fv ∧
         ((selSplit s).2.isEmpty = true ∧ nv = fv ∨ (selSplit s).2.isEmpty = false ∧ recur fv (selSplit s).2 = .ok nv) := by
   induction fs with
   | nil => intro sel fs' k f s _ hf; simp [getFld] at hf
@@ -954,7 +960,8 @@ theorem sgFields_spec (tbl : SgTable) (recur : Val → Dict → Out Val) (cls : 
 theorem replaceSg_inv (tbl : SgTable) (fuel : Nat) (obj : Val) (s : Str × Val) (sel : Dict) (r : Val)
     (h : replaceSg tbl fuel obj (s :: sel) = .ok r) :
     ∃ fuel' cls fs fs', fuel = fuel' + 1 ∧ obj = .inst cls fs ∧
-      sgFields tbl (replaceSg tbl fuel') cls fs (unflattenSel (s :: sel)) = .ok fs' ∧ r = .inst cls fs' := by
+      sgFields tbl (replaceSg tbl fuel') cls fs (unflattenSel (s :: sel)) = .ok fs' ∧ r = .inst cls fs' ∧
+      (selLeft fs (unflattenSel (s :: sel))).isEmpty = true := by
   cases fuel with
   | zero => simp [replaceSg] at h
   | succ fuel' =>
@@ -965,9 +972,14 @@ theorem replaceSg_inv (tbl : SgTable) (fuel : Nat) (obj : Val) (s : Str × Val) 
       | error e => rw [hf] at h; simp at h
       | ok fs' =>
         rw [hf] at h
-        simp only [Except.ok.injEq] at h
-        rw [rebuild_allInit fs' (sgFields_allInit tbl _ cls fs _ fs' hf)] at h
-        exact ⟨fuel', cls, fs, fs', rfl, rfl, hf, h.symm⟩
+        simp only at h
+        cases hl : (selLeft fs (unflattenSel (s :: sel))).isEmpty with
+        | false => rw [hl] at h; simp at h
+        | true =>
+          rw [hl] at h
+          simp only [if_true, Except.ok.injEq] at h
+          rw [rebuild_allInit fs' (sgFields_allInit tbl _ cls fs _ fs' hf)] at h
+          exact ⟨fuel', cls, fs, fs', rfl, rfl, hf, h.symm, hl⟩
     | _ => simp [replaceSg] at h
 
 /-- **Frame for replace_subgroups.** Every member that no selection names (after the dotted keys have been
@@ -978,7 +990,7 @@ theorem c18_subgroups_frame (tbl : SgTable) (fuel : Nat) (obj r : Val) (sel : Di
   cases sel with
   | nil => rw [c18_subgroups_empty] at h; cases h; rfl
   | cons s sel' =>
-    obtain ⟨fuel', cls, fs, fs', rfl, rfl, hf, rfl⟩ := replaceSg_inv tbl fuel obj s sel' r h
+    obtain ⟨fuel', cls, fs, fs', rfl, rfl, hf, rfl, _⟩ := replaceSg_inv tbl fuel obj s sel' r h
     simp only [getPath_cons_inst]
     rw [sgFields_frame tbl _ cls fs _ fs' k hf hk]
 
@@ -997,7 +1009,7 @@ theorem c18_subgroups_siblings_kept (tbl : SgTable) (fuel : Nat) (obj r x : Val)
     (hcur : getPath obj [a] = some (.inst c2 fs2))
     (h : replaceSg tbl fuel obj [(joinDot [a, b], x)] = .ok r) :
     getPath r [a, sib] = getPath obj [a, sib] := by
-  obtain ⟨fuel', cls, fs, fs', rfl, rfl, hf, rfl⟩ := replaceSg_inv tbl fuel obj _ [] r h
+  obtain ⟨fuel', cls, fs, fs', rfl, rfl, hf, rfl, _⟩ := replaceSg_inv tbl fuel obj _ [] r h
   rw [unflattenSel_dotted2 a b x ha hb] at hf
   simp only [getPath_cons_inst] at hcur ⊢
   cases hfa : getFld fs a with
@@ -1014,34 +1026,22 @@ theorem c18_subgroups_siblings_kept (tbl : SgTable) (fuel : Nat) (obj r x : Val)
     rw [hval] at hpick
     rw [hchild] at hrec
     simp only [List.isEmpty_cons, Bool.false_eq_true, false_and, true_and, false_or] at hrec
-    -- the member picked for `a` is the current instance, or `None` for an Optional field (then the call fails below)
-    rw [hcur] at hpick
-    have hfv : fv = .inst c2 fs2 ∨ fv = .none := by
-      unfold pickMember at hpick
-      cases hsgm : (sgMeta tbl cls a).sg with
-      | none =>
-        rw [hsgm] at hpick
-        cases hopt : (sgMeta tbl cls a).isOpt <;> rw [hopt] at hpick <;> simp at hpick <;>
-          first | (left; exact hpick.symm) | (right; exact hpick.symm)
-      | some l =>
-        rw [hsgm] at hpick
-        cases l with
-        | nil =>
-          cases hopt : (sgMeta tbl cls a).isOpt <;> rw [hopt] at hpick <;> simp at hpick <;>
-            first | (left; exact hpick.symm) | (right; exact hpick.symm)
-        | cons a0 as => simp at hpick
-    rcases hfv with rfl | rfl
-    · cases fuel' with
-      | zero => simp [replaceSg] at hrec
-      | succ f2 =>
-        obtain ⟨f3, c3, fs3, fs3', _, hobj, hf3, rfl⟩ := replaceSg_inv tbl (f2 + 1) _ _ [] nv hrec
-        cases hobj
-        rw [unflattenSel_single b x hb] at hf3
-        have hfr := sgFields_frame tbl _ _ _ _ fs3' sib hf3 (by simp [dget, hsib.symm])
-        show getPath _ [sib] = getPath f.val [sib]
-        rw [hcur]
-        simp only [getPath_cons_inst, hfr]
-    · cases fuel' <;> simp [replaceSg] at hrec
+    -- the member picked for `a` is the current instance (replace.py:157), whatever the kind of the field
+    rw [hcur, hchild] at hpick
+    have hfv : fv = .inst c2 fs2 := by
+      simp only [List.isEmpty_cons, Bool.not_false, pickMember_descend, Except.ok.injEq] at hpick
+      exact hpick.symm
+    subst hfv
+    cases fuel' with
+    | zero => simp [replaceSg] at hrec
+    | succ f2 =>
+      obtain ⟨f3, c3, fs3, fs3', _, hobj, hf3, rfl, _⟩ := replaceSg_inv tbl (f2 + 1) _ _ [] nv hrec
+      cases hobj
+      rw [unflattenSel_single b x hb] at hf3
+      have hfr := sgFields_frame tbl _ _ _ _ fs3' sib hf3 (by simp [dget, hsib.symm])
+      show getPath _ [sib] = getPath f.val [sib]
+      rw [hcur]
+      simp only [getPath_cons_inst, hfr]
 
 /-! #### order of the entries of a flat selection
 
@@ -1093,7 +1093,8 @@ theorem c18_subgroups_entry_order (tbl : SgTable) (fuel : Nat) (obj x y : Val) (
     cases obj with
     | inst cls fs =>
       simp only [replaceSg, unflattenSel_child_parent a b x y ha hb hbk, unflattenSel_parent_child a b x y ha hb hbk,
-        sgFields_congr_selSplit tbl _ cls a _ _ hsp fs]
+        sgFields_congr_selSplit tbl _ cls a _ _ hsp fs,
+        selLeft_single_isEmpty fs a (.dict [(b, x), (keyword, y)]) (.dict [(keyword, y), (b, x)])]
     | _ => rfl
 
 example : ('.' ∉ ['m']) ∧ ('.' ∉ ['a', 'c', 't']) ∧ (['a', 'c', 't'] ≠ keyword) := by decide
@@ -1155,9 +1156,9 @@ example : (∃ e, replaceKw exObj [(['m', '.', 'n'], .int 1)] = .error (.raise e
 example : (sgMeta [((['C'], ['s']), { hasDc := true, isOpt := false, sg := some [(['b'], Val.int 1)], fac := Option.none })]
     ['C'] ['s']).sg = some [(['b'], Val.int 1)] := rfl
 
-/-! ## Round 2
+/-! ## Round 2 (model at repairs abc6969 / 452ee05 / bba27c4)
 
-### replace_subgroups: any kind of selection value, nested form, depth 2, pass-through parents -/
+### replace_subgroups: any kind of selection value, nested form, depth 2, pass-through parents, unknown keys -/
 
 /-- the loop applied to ONE selection entry `k ↦ s`: if the member picked for `k` is `fv` and the child
     selections (if any) turn it into `nv`, the result is `dataclasses.replace(obj, k=nv)` on the field list. -/
@@ -1165,7 +1166,7 @@ theorem sgFields_single_gen (tbl : SgTable) (recur : Val → Dict → Out Val) (
     (k : Str) (s nv fv : Val) (f : Fld)
     (hi : ∀ f ∈ fs, f.init = true) (hf : getFld fs k = some f)
     (hdc : (sgMeta tbl cls k).hasDc = true)
-    (hp : pickMember (sgMeta tbl cls k) f.val (selSplit s).1 = .ok fv)
+    (hp : pickMember (sgMeta tbl cls k) f.val (selSplit s).1 (!(selSplit s).2.isEmpty) = .ok fv)
     (hrec : ((selSplit s).2.isEmpty = true ∧ nv = fv) ∨
             ((selSplit s).2.isEmpty = false ∧ recur fv (selSplit s).2 = .ok nv)) :
     ∃ fs', sgFields tbl recur cls fs [(k, s)] = .ok fs' ∧ setField fs k nv = some fs' := by
@@ -1187,9 +1188,13 @@ theorem sgFields_single_gen (tbl : SgTable) (recur : Val → Dict → Out Val) (
       have hdel : ddel [(n0, s)] n0 = [] := by simp [ddel]
       rw [sgFields]
       rcases hrec with ⟨he, rfl⟩ | ⟨he, hr⟩
-      · simp only [hsel, hdc, hp, he, hdel, sgFields_nil_sel tbl recur cls rest hrest]
+      · rw [he] at hp
+        simp only [Bool.not_true] at hp
+        simp only [hsel, hdc, he, Bool.not_true, hp, hdel, sgFields_nil_sel tbl recur cls rest hrest]
         simp
-      · simp only [hsel, hdc, hp, he, hr, hdel, sgFields_nil_sel tbl recur cls rest hrest]
+      · rw [he] at hp
+        simp only [Bool.not_false] at hp
+        simp only [hsel, hdc, he, Bool.not_false, hp, hr, hdel, sgFields_nil_sel tbl recur cls rest hrest]
         simp
     · simp only [hnk, if_false] at hf
       obtain ⟨fs', h1, h2⟩ := ih hrest hf
@@ -1201,16 +1206,31 @@ theorem replaceSg_single_gen (tbl : SgTable) (fuel : Nat) (cls : Str) (fs : List
     (k : Str) (s nv fv : Val) (f : Fld) (hk : '.' ∉ k)
     (hi : ∀ f ∈ fs, f.init = true) (hf : getFld fs k = some f)
     (hdc : (sgMeta tbl cls k).hasDc = true)
-    (hp : pickMember (sgMeta tbl cls k) f.val (selSplit s).1 = .ok fv)
+    (hp : pickMember (sgMeta tbl cls k) f.val (selSplit s).1 (!(selSplit s).2.isEmpty) = .ok fv)
     (hrec : ((selSplit s).2.isEmpty = true ∧ nv = fv) ∨
             ((selSplit s).2.isEmpty = false ∧ replaceSg tbl fuel fv (selSplit s).2 = .ok nv)) :
     ∃ r, replaceSg tbl (fuel + 1) (.inst cls fs) [(k, s)] = .ok r ∧ refEdit (.inst cls fs) [k] nv = some r := by
   obtain ⟨fs', h1, h2⟩ := sgFields_single_gen tbl (replaceSg tbl fuel) cls fs k s nv fv f hi hf hdc hp hrec
   refine ⟨.inst cls fs', ?_, ?_⟩
-  · simp only [replaceSg, unflattenSel_single k _ hk, h1]
+  · simp only [replaceSg, unflattenSel_single k _ hk, h1, selLeft_single fs k s f hf, List.isEmpty_nil, if_true]
     rw [rebuild_allInit fs' (setField_allInit fs k nv fs' hi h2)]
   · simp only [refEdit, h2, Option.map_some]
     rw [rebuild_allInit fs' (setField_allInit fs k nv fs' hi h2)]
+
+/-- **replace_subgroups swaps exactly the selected member** (one-level selection by subgroup key): the result is
+    `dataclasses.replace(obj, k=<the alternative registered under key>)` — nothing else changes. -/
+theorem c18_subgroups_select (tbl : SgTable) (fuel : Nat) (cls : Str) (fs : List Fld)
+    (k key : Str) (alts : Dict) (alt : Val) (f : Fld) (hk : '.' ∉ k)
+    (hi : ∀ f ∈ fs, f.init = true) (hf : getFld fs k = some f)
+    (hdc : (sgMeta tbl cls k).hasDc = true) (hsg : (sgMeta tbl cls k).sg = some alts)
+    (halt : dget alts key = some alt) :
+    ∃ r, replaceSg tbl (fuel + 1) (.inst cls fs) [(k, .str key)] = .ok r ∧
+         refEdit (.inst cls fs) [k] alt = some r := by
+  have hne : alts ≠ [] := by intro e; subst e; simp [dget] at halt
+  obtain ⟨a, as, rfl⟩ := List.exists_cons_of_ne_nil hne
+  refine replaceSg_single_gen tbl fuel cls fs k (.str key) alt alt f hk hi hf hdc ?_ (Or.inl ⟨rfl, rfl⟩)
+  show pickMember _ f.val (.str key) (!([] : Dict).isEmpty) = .ok alt
+  simp only [List.isEmpty_nil, Bool.not_true, pickMember_noChild, pickOther, hsg, halt]
 
 /-- **selection by dataclass type**: the member becomes `T()` — `dataclasses.replace(obj, k=T())`, nothing else changes -/
 theorem c18_subgroups_select_type (tbl : SgTable) (fuel : Nat) (cls : Str) (fs : List Fld)
@@ -1218,7 +1238,9 @@ theorem c18_subgroups_select_type (tbl : SgTable) (fuel : Nat) (cls : Str) (fs :
     (hi : ∀ f ∈ fs, f.init = true) (hf : getFld fs k = some f) (hdc : (sgMeta tbl cls k).hasDc = true) :
     ∃ r, replaceSg tbl (fuel + 1) (.inst cls fs) [(k, .type c mk)] = .ok r ∧
          refEdit (.inst cls fs) [k] mk = some r :=
-  replaceSg_single_gen tbl fuel cls fs k (.type c mk) mk mk f hk hi hf hdc rfl (Or.inl ⟨rfl, rfl⟩)
+  replaceSg_single_gen tbl fuel cls fs k (.type c mk) mk mk f hk hi hf hdc
+    (by show pickMember _ f.val (.type c mk) (!([] : Dict).isEmpty) = .ok mk
+        simp only [List.isEmpty_nil, Bool.not_true, pickMember_noChild, pickOther]) (Or.inl ⟨rfl, rfl⟩)
 
 /-- **selection by dataclass instance**: the member becomes (a copy of) that instance -/
 theorem c18_subgroups_select_inst (tbl : SgTable) (fuel : Nat) (cls : Str) (fs : List Fld)
@@ -1226,7 +1248,9 @@ theorem c18_subgroups_select_inst (tbl : SgTable) (fuel : Nat) (cls : Str) (fs :
     (hi : ∀ f ∈ fs, f.init = true) (hf : getFld fs k = some f) (hdc : (sgMeta tbl cls k).hasDc = true) :
     ∃ r, replaceSg tbl (fuel + 1) (.inst cls fs) [(k, .inst c ifs)] = .ok r ∧
          refEdit (.inst cls fs) [k] (.inst c ifs) = some r :=
-  replaceSg_single_gen tbl fuel cls fs k (.inst c ifs) (.inst c ifs) (.inst c ifs) f hk hi hf hdc rfl (Or.inl ⟨rfl, rfl⟩)
+  replaceSg_single_gen tbl fuel cls fs k (.inst c ifs) (.inst c ifs) (.inst c ifs) f hk hi hf hdc
+    (by show pickMember _ f.val (.inst c ifs) (!([] : Dict).isEmpty) = .ok (.inst c ifs)
+        simp only [List.isEmpty_nil, Bool.not_true, pickMember_noChild, pickOther]) (Or.inl ⟨rfl, rfl⟩)
 
 /-- **nested form = flat form** for a selected parent with one child: `{"a": {"__key__": y, "b": x}}` is a fixed
     point of `_unflatten_selection_dict`, and by `unflattenSel_parent_child` it is what `{"a": y, "a.b": x}` becomes. -/
@@ -1245,72 +1269,51 @@ theorem c18_subgroups_nested_eq_flat (tbl : SgTable) (fuel : Nat) (obj x y : Val
       simp only [replaceSg, unflattenSel_nested_form a b x y ha, unflattenSel_parent_child a b x y ha hb hbk]
     | _ => rfl
 
-/-- a parent that a selection may pass through: not Optional, no `subgroups()` choices of its own -/
-def PlainParent (m : SgMeta) : Prop := m.isOpt = false ∧ (m.sg = Option.none ∨ m.sg = some [])
-
-theorem pickMember_passthrough (m : SgMeta) (c2 : Str) (fs2 : List Fld) (hm : PlainParent m) :
-    pickMember m (.inst c2 fs2) .none = .ok (.inst c2 fs2) := by
-  obtain ⟨ho, hs | hs⟩ := hm <;> simp [pickMember, ho, hs]
-
-/-- **Pass-through selections — full statement**: when only a member *below* the dataclass-valued field `a` is
-    selected and the selection succeeds on the current `obj.a`, it succeeds on `obj`. -/
-def PassThroughFull : Prop :=
-  ∀ (tbl : SgTable) (fuel : Nat) (cls : Str) (fs : List Fld) (a b : Str) (x r2 : Val) (c2 : Str) (fs2 : List Fld) (f : Fld),
-    '.' ∉ a → '.' ∉ b → b ≠ keyword → (∀ g ∈ fs, g.init = true) → getFld fs a = some f → f.val = .inst c2 fs2 →
-    (sgMeta tbl cls a).hasDc = true → replaceSg tbl (fuel + 1) (.inst c2 fs2) [(b, x)] = .ok r2 →
-    ∃ r, replaceSg tbl (fuel + 2) (.inst cls fs) [(joinDot [a, b], x)] = .ok r
-
-/-- **Partial (open finding C18-subgroups-passthrough-opt-sg excluded by `PlainParent`)**: the call succeeds and
-    is `dataclasses.replace(obj, a=<obj.a with the selection applied>)`. -/
-theorem c18_subgroups_passthrough_partial (tbl : SgTable) (fuel : Nat) (cls : Str) (fs : List Fld) (a b : Str)
+/-- **Pass-through selections (full, every kind of parent — after repair 452ee05).**  When only a member *below*
+    the dataclass-valued field `a` is selected (plain, Optional, Union or subgroups field alike) and the selection
+    succeeds on the current `obj.a`, it succeeds on `obj` and is `dataclasses.replace(obj, a=<obj.a with the
+    selection applied>)`. -/
+theorem c18_subgroups_passthrough (tbl : SgTable) (fuel : Nat) (cls : Str) (fs : List Fld) (a b : Str)
     (x r2 : Val) (c2 : Str) (fs2 : List Fld) (f : Fld)
     (ha : '.' ∉ a) (hb : '.' ∉ b) (hbk : b ≠ keyword) (hi : ∀ g ∈ fs, g.init = true)
     (hf : getFld fs a = some f) (hv : f.val = .inst c2 fs2)
-    (hdc : (sgMeta tbl cls a).hasDc = true) (hplain : PlainParent (sgMeta tbl cls a))
+    (hdc : (sgMeta tbl cls a).hasDc = true)
     (h2 : replaceSg tbl (fuel + 1) (.inst c2 fs2) [(b, x)] = .ok r2) :
     ∃ r, replaceSg tbl (fuel + 2) (.inst cls fs) [(joinDot [a, b], x)] = .ok r ∧
          refEdit (.inst cls fs) [a] r2 = some r := by
   have hval : (selSplit (.dict [(b, x)])).1 = .none := by simp [selSplit, dget, hbk]
   have hchild : (selSplit (.dict [(b, x)])).2 = [(b, x)] := by simp [selSplit, ddel, hbk]
   obtain ⟨fs', h1, hset⟩ := sgFields_single_gen tbl (replaceSg tbl (fuel + 1)) cls fs a (.dict [(b, x)]) r2 (.inst c2 fs2) f
-    hi hf hdc (by rw [hval, hv]; exact pickMember_passthrough _ c2 fs2 hplain)
+    hi hf hdc (by rw [hval, hchild, hv]; simp only [List.isEmpty_cons, Bool.not_false, pickMember_descend])
     (Or.inr ⟨by rw [hchild]; rfl, by rw [hchild]; exact h2⟩)
   refine ⟨.inst cls fs', ?_, ?_⟩
-  · simp only [replaceSg, unflattenSel_dotted2 a b x ha hb, h1]
+  · simp only [replaceSg, unflattenSel_dotted2 a b x ha hb, h1, selLeft_single fs a _ f hf, List.isEmpty_nil, if_true]
     rw [rebuild_allInit fs' (setField_allInit fs a r2 fs' hi hset)]
   · simp only [refEdit, hset, Option.map_some]
     rw [rebuild_allInit fs' (setField_allInit fs a r2 fs' hi hset)]
 
-/-- **Witness (open finding C18-subgroups-passthrough-opt-sg)**: `c.n : Optional[AB]` holds `AB(s=A(), k=9)`;
-    `{"s": "b"}` succeeds on `c.n`, but `{"n.s": "b"}` on `c` raises (the field is set to `None` first). -/
-theorem c18_subgroups_passthrough_witness : ¬ PassThroughFull := by
-  intro h
-  let B0 : Val := .inst ['B'] [.mk ['b'] true (.str ['x']) .none]
-  let tbl : SgTable := [((['C'], ['n']), { hasDc := true, isOpt := true, sg := Option.none, fac := Option.none }),
-                        ((['A', 'B'], ['s']), { hasDc := true, isOpt := false, sg := some [(['b'], B0)], fac := Option.none })]
-  obtain ⟨r, hr⟩ := h tbl 1 ['C'] [.mk ['n'] true (.inst ['A', 'B'] [.mk ['s'] true (.int 0) .none, .mk ['k'] true (.int 9) .none]) .none]
-    ['n'] ['s'] (.str ['b']) (.inst ['A', 'B'] [.mk ['s'] true B0 .none, .mk ['k'] true (.int 9) .none])
-    ['A', 'B'] [.mk ['s'] true (.int 0) .none, .mk ['k'] true (.int 9) .none] (.mk ['n'] true (.inst ['A', 'B'] [.mk ['s'] true (.int 0) .none, .mk ['k'] true (.int 9) .none]) .none)
-    (by decide) (by decide) (by decide) (by intro g hg; simp at hg; subst hg; rfl) rfl rfl rfl rfl
-  have : replaceSg tbl 3 (.inst ['C'] [.mk ['n'] true (.inst ['A', 'B'] [.mk ['s'] true (.int 0) .none, .mk ['k'] true (.int 9) .none]) .none])
-      [(joinDot [['n'], ['s']], .str ['b'])] = .error (.raise .typeError) := rfl
-  rw [this] at hr
-  cases hr
+/-- regression (former witness of C18-subgroups-passthrough-opt-sg): `c.n : Optional[AB]` holds `AB(s=…, k=9)`;
+    `{"n.s": "b"}` now succeeds and keeps `n.k == 9` -/
+example :
+    let B0 : Val := .inst ['B'] [.mk ['b'] true (.str ['x']) .none]
+    let tbl : SgTable := [((['C'], ['n']), { hasDc := true, isOpt := true, sg := Option.none, fac := Option.none }),
+                          ((['A', 'B'], ['s']), { hasDc := true, isOpt := false, sg := some [(['b'], B0)], fac := Option.none })]
+    replaceSg tbl 3 (.inst ['C'] [.mk ['n'] true (.inst ['A', 'B'] [.mk ['s'] true (.int 0) .none, .mk ['k'] true (.int 9) .none]) .none])
+      [(joinDot [['n'], ['s']], .str ['b'])] =
+      .ok (.inst ['C'] [.mk ['n'] true (.inst ['A', 'B'] [.mk ['s'] true B0 .none, .mk ['k'] true (.int 9) .none]) .none]) := rfl
 
-example : PlainParent { hasDc := true, isOpt := false, sg := Option.none, fac := Option.none } := ⟨rfl, Or.inl rfl⟩
-
-/-- **The SELECTED member at depth 2**: selecting `a.b` by subgroup key below a plain dataclass-valued field `a`
-    succeeds and is `dataclasses.replace(obj, a=dataclasses.replace(obj.a, b=<alternative>))` — level by level. -/
+/-- **The SELECTED member at depth 2**: selecting `a.b` by subgroup key below a dataclass-valued field `a` (of any
+    kind) succeeds and is `dataclasses.replace(obj, a=dataclasses.replace(obj.a, b=<alternative>))` — level by level. -/
 theorem c18_subgroups_nested_selected (tbl : SgTable) (fuel : Nat) (cls : Str) (fs : List Fld) (a b key : Str)
     (alts : Dict) (alt : Val) (c2 : Str) (fs2 : List Fld) (f f2 : Fld)
     (ha : '.' ∉ a) (hb : '.' ∉ b) (hbk : b ≠ keyword) (hi : ∀ g ∈ fs, g.init = true) (hi2 : ∀ g ∈ fs2, g.init = true)
     (hf : getFld fs a = some f) (hv : f.val = .inst c2 fs2) (hf2 : getFld fs2 b = some f2)
-    (hdc : (sgMeta tbl cls a).hasDc = true) (hplain : PlainParent (sgMeta tbl cls a))
+    (hdc : (sgMeta tbl cls a).hasDc = true)
     (hdc2 : (sgMeta tbl c2 b).hasDc = true) (hsg : (sgMeta tbl c2 b).sg = some alts) (halt : dget alts key = some alt) :
     ∃ r, replaceSg tbl (fuel + 2) (.inst cls fs) [(joinDot [a, b], .str key)] = .ok r ∧
          refEdit (.inst cls fs) [a, b] alt = some r := by
   obtain ⟨r2, h2, href2⟩ := c18_subgroups_select tbl fuel c2 fs2 b key alts alt f2 hb hi2 hf2 hdc2 hsg halt
-  obtain ⟨r, h1, href⟩ := c18_subgroups_passthrough_partial tbl fuel cls fs a b (.str key) r2 c2 fs2 f ha hb hbk hi hf hv hdc hplain h2
+  obtain ⟨r, h1, href⟩ := c18_subgroups_passthrough tbl fuel cls fs a b (.str key) r2 c2 fs2 f ha hb hbk hi hf hv hdc h2
   refine ⟨r, h1, ?_⟩
   have hgf : getField fs a = some (.inst c2 fs2) := by rw [getField_eq, hf]; simp [hv]
   rw [refEdit, hgf]
@@ -1373,36 +1376,50 @@ theorem c18_subgroups_nested_selected_leaf (tbl : SgTable) (fuel : Nat) (cls : S
     (alts : Dict) (alt : Val) (c2 : Str) (fs2 : List Fld) (f f2 : Fld)
     (ha : '.' ∉ a) (hb : '.' ∉ b) (hbk : b ≠ keyword) (hi : ∀ g ∈ fs, g.init = true) (hi2 : ∀ g ∈ fs2, g.init = true)
     (hf : getFld fs a = some f) (hv : f.val = .inst c2 fs2) (hf2 : getFld fs2 b = some f2)
-    (hdc : (sgMeta tbl cls a).hasDc = true) (hplain : PlainParent (sgMeta tbl cls a))
+    (hdc : (sgMeta tbl cls a).hasDc = true)
     (hdc2 : (sgMeta tbl c2 b).hasDc = true) (hsg : (sgMeta tbl c2 b).sg = some alts) (halt : dget alts key = some alt) :
     ∃ r, replaceSg tbl (fuel + 2) (.inst cls fs) [(joinDot [a, b], .str key)] = .ok r ∧ getPath r [a, b] = some alt := by
   obtain ⟨r, h1, h2⟩ := c18_subgroups_nested_selected tbl fuel cls fs a b key alts alt c2 fs2 f f2 ha hb hbk hi hi2 hf hv hf2
-    hdc hplain hdc2 hsg halt
+    hdc hdc2 hsg halt
   exact ⟨r, h1, getPath_refEdit [a, b] _ alt r h2⟩
 
-/-- **Unknown selection keys — full statement**: a selection key that names no field never returns normally. -/
-def SubgroupsUnknownRaisesFull : Prop :=
-  ∀ (tbl : SgTable) (fuel : Nat) (cls : Str) (fs : List Fld) (k : Str) (x : Val),
-    getFld fs k = Option.none → ∀ r, replaceSg tbl fuel (.inst cls fs) [(k, x)] ≠ .ok r
+/-- **Unknown selection keys raise** (full — after repair bba27c4): a key of the (grouped) selection dict that names
+    no field of `obj` means the call never returns normally, whatever else is selected. -/
+theorem c18_subgroups_unknown_raises (tbl : SgTable) (fuel : Nat) (cls : Str) (fs : List Fld) (sel : Dict)
+    (k : Str) (x : Val) (hk : dget (unflattenSel sel) k = some x) (hf : getFld fs k = Option.none) :
+    ∀ r, replaceSg tbl fuel (.inst cls fs) sel ≠ .ok r := by
+  intro r h
+  cases sel with
+  | nil => simp [unflattenSel, dget] at hk
+  | cons s sel' =>
+    obtain ⟨fuel', cls', fs', fs'', _, hobj, _, _, hl⟩ := replaceSg_inv tbl fuel _ s sel' r h
+    cases hobj
+    have := selLeft_keeps_unknown fs (unflattenSel (s :: sel')) k hf
+    rw [hk] at this
+    cases hsl : selLeft fs (unflattenSel (s :: sel')) with
+    | nil => rw [hsl] at this; simp [dget] at this
+    | cons a b => rw [hsl] at hl; simp at hl
 
-/-- **Witness (open finding C18-subgroups-unknown-ignored)**: `replace_subgroups(c, {"zz": "b"})` returns a plain copy. -/
-theorem c18_subgroups_unknown_witness : ¬ SubgroupsUnknownRaisesFull := by
-  intro h
-  exact h [] 1 ['C'] [.mk ['z'] true (.int 3) .none] ['z', 'z'] (.str ['b']) rfl
-    (.inst ['C'] [.mk ['z'] true (.int 3) .none]) rfl
+/-- the one-key form stated in round 2 as `SubgroupsUnknownRaisesFull` -/
+theorem c18_subgroups_unknown_raises_single (tbl : SgTable) (fuel : Nat) (cls : Str) (fs : List Fld) (k : Str) (x : Val)
+    (hk : '.' ∉ k) (hf : getFld fs k = Option.none) : ∀ r, replaceSg tbl fuel (.inst cls fs) [(k, x)] ≠ .ok r :=
+  c18_subgroups_unknown_raises tbl fuel cls fs [(k, x)] k x (by rw [unflattenSel_single k x hk]; simp [dget]) hf
 
-/-- pass-through, total form: under a plain parent the call succeeds AND every sibling of the replaced member is
-    kept (this is `c18_subgroups_siblings_kept` with its success hypothesis discharged; for Optional / subgroups
-    parents that hypothesis is unsatisfiable — `c18_subgroups_passthrough_witness`). -/
+/-- regression (former witness of C18-subgroups-unknown-ignored): `{"zz": "b"}` now raises TypeError -/
+example : replaceSg [] 1 (.inst ['C'] [.mk ['z'] true (.int 3) .none]) [(['z', 'z'], .str ['b'])] =
+    .error (.raise .typeError) := rfl
+
+/-- pass-through, total form: the call succeeds AND every sibling of the replaced member is kept
+    (`c18_subgroups_siblings_kept` with its success hypothesis discharged, for every kind of parent). -/
 theorem c18_subgroups_passthrough_keeps_siblings (tbl : SgTable) (fuel : Nat) (cls : Str) (fs : List Fld) (a b : Str)
     (x r2 : Val) (c2 : Str) (fs2 : List Fld) (f : Fld)
     (ha : '.' ∉ a) (hb : '.' ∉ b) (hbk : b ≠ keyword) (hi : ∀ g ∈ fs, g.init = true)
     (hf : getFld fs a = some f) (hv : f.val = .inst c2 fs2)
-    (hdc : (sgMeta tbl cls a).hasDc = true) (hplain : PlainParent (sgMeta tbl cls a))
+    (hdc : (sgMeta tbl cls a).hasDc = true)
     (h2 : replaceSg tbl (fuel + 1) (.inst c2 fs2) [(b, x)] = .ok r2) :
     ∃ r, replaceSg tbl (fuel + 2) (.inst cls fs) [(joinDot [a, b], x)] = .ok r ∧
       ∀ sib, sib ≠ b → getPath r [a, sib] = getPath (.inst cls fs) [a, sib] := by
-  obtain ⟨r, h1, _⟩ := c18_subgroups_passthrough_partial tbl fuel cls fs a b x r2 c2 fs2 f ha hb hbk hi hf hv hdc hplain h2
+  obtain ⟨r, h1, _⟩ := c18_subgroups_passthrough tbl fuel cls fs a b x r2 c2 fs2 f ha hb hbk hi hf hv hdc h2
   refine ⟨r, h1, fun sib hs => ?_⟩
   have hcur : getPath (.inst cls fs) [a] = some (.inst c2 fs2) := by
     rw [getPath_cons_inst, hf]; simp [getPath, hv]
